@@ -48,6 +48,50 @@ class Machine(Stage):
         return res
 
 
+class ThousandConnections(Stage):
+    """a compositor that has seen more than a thousand clients: wl_connection addresses are destroyed and handed out again
+    1001..1040 times while one early connection stays open; every connection gets the next name (the 1000th is ALL, then ALM),
+    its own notices and a fresh table"""
+    name = 'thousand-connections'
+
+    def examples(self, tier):
+        return 3 if tier == 'quick' else 14 * 3
+
+    def gen(self, d, tier):
+        return dict(n=d.int(1001, 1040), addrs=d.choice([[4], [4, 6], [4, 6, 7]]), side=d.choice(['server', 'server', 'client']), second=d.chance(0.5))
+
+    def execute(self, case):
+        from .. import histgen
+        P = histgen.protocols()
+        ops = []
+        t = [0]
+
+        def first(addr, side):
+            t[0] += 1000
+            m = dict(conn=None, t_us=t[0], sent=(side == 'client'), iface='wl_display', id=1, name='get_registry', args=[['new', 'wl_registry', 2]])
+            ops.append(['msg', addr, 1, dict(gdbsim.closure_of_message(m, side, addr, P['wl_display'].msg('get_registry')), thread_name='main')])
+
+        def sync(addr, side):
+            t[0] += 1000
+            m = dict(conn=None, t_us=t[0], sent=(side == 'client'), iface='wl_display', id=1, name='sync', args=[['new', 'wl_callback', 3]])
+            ops.append(['msg', addr, 1, dict(gdbsim.closure_of_message(m, side, addr, P['wl_display'].msg('sync')), thread_name='main')])
+        first(5, case['side'])                 # stays open all the time
+        for k in range(case['n']):
+            addr = case['addrs'][k % len(case['addrs'])]
+            first(addr, case['side'])
+            if case['second'] and k % 7 == 0:
+                sync(addr, case['side'])
+            if k % 211 == 0:
+                sync(5, case['side'])
+            ops.append(['destroy', addr, 1, False])
+        sync(5, case['side'])
+        res = pm.replay(dict(ops=ops, break_text=None), False, True)
+        res.nontrivial = True
+        res.label('connections>=1001')
+        res.sample = dict(case)
+        return res
+
+
 class RealGdb(Stage):
     """message/destroy sequences on a generated C mock under the real gdb with the unmodified plugin: the
     connection list it ends with must be the one the stand-in run (and the model) ends with"""
@@ -123,7 +167,7 @@ class C15(Prop):
             'destroy followed by reuse of the address, or a destroy of a never-seen address; distinct by SHA-1 of the op list.')
     assumptions = ['fakegdb stand-in for the gdb module (cross-checked against real gdb 13 on a generated C mock: stage real-gdb here and in C09)',
                    'address reuse is modelled as a new wl_connection object with the same numeric address']
-    stages = [Machine(), RealGdb()]
+    stages = [Machine(), ThousandConnections(), RealGdb()]
 
 
 gdbsim.install()
